@@ -355,4 +355,168 @@ theorem bl17_comp_steps (mk : TK) (marker : Tok) (hmarker : marker.kind = mk) (c
   intro container
   exact hparseAlias container _ rfl rfl
 
+/-- **`ingredient` with filler inside name / alias / note**: the event matches the clean component -/
+theorem bl17_ingredientP (cF c : AComp) (hF : CompFiller cF c) (p : CPad) (s : BP α) (hsp : s.cs.uws ' ' = true)
+    (hwf : c.wf s.cs s.ext = true) (hp : p.ok s.cs = true)
+    (A ts rest : List Tok) (hs : Spells ts (spellIngredient cF p)) (ht : s.toks = A ++ (ts ++ rest))
+    (hc : s.cur = A.length) (hrest : restOK c rest = true) (hrun : RunAt (baseOff s.toks) s.toks) :
+    ∃ ing : PIngredient α,
+      ingredientP s = (some (.ingredient ⟨ing, ⟨offAt s.toks A.length, offAt s.toks (A.length + ts.length)⟩⟩),
+        { s with cur := A.length + ts.length }) ∧ IngrMatches s.cs c ing := by
+  obtain ⟨tm, mt, nameT, Q, tob, tcb, name, alias, note, c2, c3, h1, h2, h3, h4, h5, hnameNE, hnameT, haliasT, hnoteT,
+    hmt, hQ, hrunQ, hQany⟩ := bl17_comp_steps .at (tk .at ['@']) rfl cF c hF p s hsp hwf hp A ts rest hs ht hc hrest hrun
+  have hwf' := hwf
+  simp only [AComp.wf, Bool.and_eq_true] at hwf'
+  obtain ⟨⟨⟨⟨⟨⟨⟨⟨hname, hmk⟩, hmnd⟩, hmext⟩, hmhead⟩, hnor⟩, halias⟩, hnote⟩, hqty⟩ := hwf'
+  simp only [CPad.ok, Bool.and_eq_true] at hp
+  obtain ⟨⟨⟨⟨hpn1, hpa0⟩, hpa1⟩, hpq⟩, hpe⟩ := hp
+  obtain ⟨mspan, hpm⟩ := parseModifiers_run (α := α) c.mods mt (offAt s.toks (A.length + 1))
+    ({ s with cur := A.length + ts.length } : BP α) hmt hmk (by simpa using hmnd)
+  have hce := checkEmptyName_run "ingredient" name ({ s with cur := A.length + ts.length } : BP α) hnameNE
+  unfold ingredientP
+  simp only [bind, StateT.bind, currentOffset_run, h1, h2, h3, h4, h5, hce, hpm, hQany]
+  cases hcq : c.qty with
+  | none =>
+    simp only [Option.isSome_none, Bool.false_eq_true, if_false, pure, StateT.pure, hc]
+    refine ⟨_, rfl, ?_⟩
+    refine ⟨hnameT, haliasT, hnoteT, rfl, rfl, ?_⟩
+    rw [hcq]; trivial
+  | some q =>
+    rw [hcq] at hQ hqty
+    simp only [Bool.and_eq_true, Bool.or_eq_true, Bool.not_eq_true'] at hqty
+    obtain ⟨vspan, lspan, unitT, sep, hpq', hl, hunit, hsep⟩ := rt_parseQuantity q p.q
+      ({ s with cur := A.length + ts.length } : BP α) hqty.1.1 hpq
+      (by intro hr; rcases hqty.1.2 with h | h; · rw [hr] at h; cases h
+          · exact h)
+      (by intro ha; rcases hqty.2 with h | h; · rw [ha] at h; cases h
+          · exact h)
+      Q hQ hrunQ
+    simp only [Option.isSome_some, if_true, StateT.bind, hpq', pure, StateT.pure, hc]
+    refine ⟨_, rfl, ?_⟩
+    refine ⟨hnameT, haliasT, hnoteT, rfl, rfl, ?_⟩
+    rw [hcq]
+    exact ⟨rfl, hl, hunit⟩
+
+/-- **`cookware` with filler inside name / alias / note** -/
+theorem bl17_cookwareP (cF c : AComp) (hF : CompFiller cF c) (p : CPad) (s : BP α) (hsp : s.cs.uws ' ' = true)
+    (hwfc : c.wfCookware s.cs s.ext = true) (hp : p.ok s.cs = true)
+    (A ts rest : List Tok) (hs : Spells ts (spellCookware cF p)) (ht : s.toks = A ++ (ts ++ rest))
+    (hc : s.cur = A.length) (hrest : restOK c rest = true) (hrun : RunAt (baseOff s.toks) s.toks) :
+    ∃ cw : PCookware α,
+      cookwareP s = (some (.cookware ⟨cw, ⟨offAt s.toks A.length, offAt s.toks (A.length + ts.length)⟩⟩),
+        { s with cur := A.length + ts.length }) ∧ CwMatches s.cs c cw := by
+  simp only [AComp.wfCookware, Bool.and_eq_true, Bool.not_eq_true'] at hwfc
+  obtain ⟨⟨hwf, hnoat⟩, hnounit⟩ := hwfc
+  obtain ⟨tm, mt, nameT, Q, tob, tcb, name, alias, note, c2, c3, h1, h2, h3, h4, h5, hnameNE, hnameT, haliasT, hnoteT,
+    hmt, hQ, hrunQ, hQany⟩ := bl17_comp_steps .hash (tk .hash ['#']) rfl cF c hF p s hsp hwf hp A ts rest hs ht hc hrest hrun
+  have hwf' := hwf
+  simp only [AComp.wf, Bool.and_eq_true] at hwf'
+  obtain ⟨⟨⟨⟨⟨⟨⟨⟨hname, hmk⟩, hmnd⟩, hmext⟩, hmhead⟩, hnor⟩, halias⟩, hnote⟩, hqty⟩ := hwf'
+  simp only [CPad.ok, Bool.and_eq_true] at hp
+  obtain ⟨⟨⟨⟨hpn1, hpa0⟩, hpa1⟩, hpq⟩, hpe⟩ := hp
+  obtain ⟨mspan, hpm⟩ := parseModifiers_run (α := α) c.mods mt (offAt s.toks (A.length + 1))
+    ({ s with cur := A.length + ts.length } : BP α) hmt hmk (by simpa using hmnd)
+  have hce := checkEmptyName_run "cookware" name ({ s with cur := A.length + ts.length } : BP α) hnameNE
+  have hrec := modsOf_no_recipe c.mods hmk hnoat
+  unfold cookwareP
+  simp only [bind, StateT.bind, currentOffset_run, h1, h2, h3, h4, h5, hce, hQany]
+  cases hcq : c.qty with
+  | none =>
+    simp only [Option.isSome_none, Bool.false_eq_true, if_false, pure, StateT.pure, hpm, hrec, hc]
+    refine ⟨_, rfl, ?_⟩
+    refine ⟨hnameT, haliasT, hnoteT, rfl, ?_⟩
+    rw [hcq]; trivial
+  | some q =>
+    rw [hcq] at hQ hqty hnounit
+    simp only [Bool.and_eq_true, Bool.or_eq_true, Bool.not_eq_true'] at hqty
+    obtain ⟨vspan, lspan, unitT, sep, hpq', hl, hunit, hsep⟩ := rt_parseQuantity q p.q
+      ({ s with cur := A.length + ts.length } : BP α) hqty.1.1 hpq
+      (by intro hr; rcases hqty.1.2 with h | h; · rw [hr] at h; cases h
+          · exact h)
+      (by intro ha; rcases hqty.2 with h | h; · rw [ha] at h; cases h
+          · exact h)
+      Q hQ hrunQ
+    have hun : unitT = none := by
+      have hqn : q.unit = none := by simpa using hnounit
+      rw [hqn] at hunit
+      cases unitT <;> simp_all
+    subst hun
+    simp only [Option.isSome_some, if_true, bind, StateT.bind, hpq', pure, StateT.pure, hpm, hrec,
+      Bool.false_eq_true, if_false, hc]
+    refine ⟨_, rfl, ?_⟩
+    refine ⟨hnameT, haliasT, hnoteT, rfl, ?_⟩
+    rw [hcq]
+    exact ⟨rfl, hl⟩
+
+/-! ### two events that match the same abstract component are `EvLoose`-related -/
+
+theorem bl17_optTrim_of_eq {cs : CharSpec} {a' a : Option Text} {x : Option (List Char)}
+    (h' : a'.map (fun t => t.trimmed cs) = x) (h : a.map (fun t => t.trimmed cs) = x) : OptRel (TrimEq cs) a' a := by
+  cases a' <;> cases a <;> cases x <;> simp_all [OptRel, TrimEq]
+
+theorem bl17_qty_loose {cs : CharSpec} {q : Option AQty} {a' a : Option (Loc (PQuantity α))}
+    (h' : QtyMatches cs q a') (h : QtyMatches cs q a) : OptRel (LocSim (PQuantityLoose cs)) a' a := by
+  cases q <;> cases a' <;> cases a <;> simp only [QtyMatches] at h' h <;> simp only [OptRel]
+  rename_i q x' x
+  refine ⟨⟨by rw [h'.1, h.1], by rw [h'.2.1, h.2.1]⟩, bl17_optTrim_of_eq h'.2.2 h.2.2⟩
+
+theorem bl17_cwQty_loose {q : Option AQty} {a' a : Option (Loc (PQValue α))}
+    (h' : CwQtyMatches q a') (h : CwQtyMatches q a) : OptRel (LocSim PQValueSim) a' a := by
+  cases q <;> cases a' <;> cases a <;> simp only [CwQtyMatches] at h' h <;> simp only [OptRel]
+  rename_i q x' x
+  exact ⟨by rw [h'.1, h.1], by rw [h'.2, h.2]⟩
+
+theorem bl17_ingr_loose {cs : CharSpec} {c : AComp} {i' i : PIngredient α} (h' : IngrMatches cs c i')
+    (h : IngrMatches cs c i) : PIngredientLoose cs i' i := by
+  obtain ⟨a1, a2, a3, a4, a5, a6⟩ := h'
+  obtain ⟨b1, b2, b3, b4, b5, b6⟩ := h
+  refine ⟨by rw [a4, b4], by rw [a5, b5]; trivial, by unfold TrimEq; rw [a1, b1], bl17_optTrim_of_eq a2 b2,
+    bl17_qty_loose a6 b6, bl17_optTrim_of_eq a3 b3⟩
+
+theorem bl17_cw_loose {cs : CharSpec} {c : AComp} {i' i : PCookware α} (h' : CwMatches cs c i')
+    (h : CwMatches cs c i) : PCookwareLoose cs i' i := by
+  obtain ⟨a1, a2, a3, a4, a5⟩ := h'
+  obtain ⟨b1, b2, b3, b4, b5⟩ := h
+  exact ⟨by rw [a4, b4], by unfold TrimEq; rw [a1, b1], bl17_optTrim_of_eq a2 b2, bl17_cwQty_loose a5 b5,
+    bl17_optTrim_of_eq a3 b3⟩
+
+theorem bl17_timer_loose {cs : CharSpec} {c : ATimer} {t' t : PTimer α} (h' : TimerMatches cs c t')
+    (h : TimerMatches cs c t) : PTimerLoose cs t' t :=
+  ⟨bl17_optTrim_of_eq h'.1 h.1, bl17_qty_loose h'.2 h.2⟩
+
+/-- **Ingredient, filler against clean spelling.**  The same parser state shape on both sides
+    (`A' … rest'` / `A … rest` are whatever surrounds the component: any offsets, any tokens), the
+    spelling of `cF` against the spelling of `c`: the two `ingredient` runs succeed, consume exactly
+    the component, and the two events are `EvLoose`-related. -/
+theorem bl17_ingredient_filler_loose (cF c : AComp) (hF : CompFiller cF c) (p' p : CPad) (s' s : BP α)
+    (hcs : s'.cs = s.cs) (hext : s'.ext = s.ext) (hsp : s.cs.uws ' ' = true)
+    (hwf : c.wf s.cs s.ext = true) (hp' : p'.ok s.cs = true) (hp : p.ok s.cs = true)
+    (A' ts' rest' A ts rest : List Tok) (hs' : Spells ts' (spellIngredient cF p')) (hs : Spells ts (spellIngredient c p))
+    (ht' : s'.toks = A' ++ (ts' ++ rest')) (ht : s.toks = A ++ (ts ++ rest))
+    (hc' : s'.cur = A'.length) (hc : s.cur = A.length) (hrest' : restOK c rest' = true) (hrest : restOK c rest = true)
+    (hrun' : RunAt (baseOff s'.toks) s'.toks) (hrun : RunAt (baseOff s.toks) s.toks) :
+    ∃ ev' ev : Ev α, ingredientP s' = (some ev', { s' with cur := A'.length + ts'.length }) ∧
+      ingredientP s = (some ev, { s with cur := A.length + ts.length }) ∧ EvLoose s.cs ev' ev := by
+  obtain ⟨i', h1', h2'⟩ := bl17_ingredientP cF c hF p' s' (by rw [hcs]; exact hsp) (by rw [hcs, hext]; exact hwf)
+    (by rw [hcs]; exact hp') A' ts' rest' hs' ht' hc' hrest' hrun'
+  obtain ⟨i, h1, h2⟩ := rt_ingredientP c p s hwf hp A ts rest hs ht hc hrest hrun
+  rw [hcs] at h2'
+  exact ⟨_, _, h1', h1, bl17_ingr_loose h2' h2⟩
+
+/-- **Cookware, filler against clean spelling.** -/
+theorem bl17_cookware_filler_loose (cF c : AComp) (hF : CompFiller cF c) (p' p : CPad) (s' s : BP α)
+    (hcs : s'.cs = s.cs) (hext : s'.ext = s.ext) (hsp : s.cs.uws ' ' = true)
+    (hwf : c.wfCookware s.cs s.ext = true) (hp' : p'.ok s.cs = true) (hp : p.ok s.cs = true)
+    (A' ts' rest' A ts rest : List Tok) (hs' : Spells ts' (spellCookware cF p')) (hs : Spells ts (spellCookware c p))
+    (ht' : s'.toks = A' ++ (ts' ++ rest')) (ht : s.toks = A ++ (ts ++ rest))
+    (hc' : s'.cur = A'.length) (hc : s.cur = A.length) (hrest' : restOK c rest' = true) (hrest : restOK c rest = true)
+    (hrun' : RunAt (baseOff s'.toks) s'.toks) (hrun : RunAt (baseOff s.toks) s.toks) :
+    ∃ ev' ev : Ev α, cookwareP s' = (some ev', { s' with cur := A'.length + ts'.length }) ∧
+      cookwareP s = (some ev, { s with cur := A.length + ts.length }) ∧ EvLoose s.cs ev' ev := by
+  obtain ⟨i', h1', h2'⟩ := bl17_cookwareP cF c hF p' s' (by rw [hcs]; exact hsp) (by rw [hcs, hext]; exact hwf)
+    (by rw [hcs]; exact hp') A' ts' rest' hs' ht' hc' hrest' hrun'
+  obtain ⟨i, h1, h2⟩ := rt_cookwareP c p s hwf hp A ts rest hs ht hc hrest hrun
+  rw [hcs] at h2'
+  exact ⟨_, _, h1', h1, bl17_cw_loose h2' h2⟩
+
 end Cook
